@@ -114,6 +114,7 @@ def monitor(am, engine, cx, events, snaps):
     active = set()
     act_no = {}
     count = {}
+    spans = {}          # state -> [(entered, left)] of its finished activations
     for o in log:
         if o[0] == "clock":
             now = o[1]
@@ -121,6 +122,7 @@ def monitor(am, engine, cx, events, snaps):
             active.add(o[1]); entered_at[o[1]] = now; act_no[o[1]] = act_no.get(o[1], 0) + 1
         elif o[0] == "leave":
             active.discard(o[1])
+            spans.setdefault(o[1], []).append((entered_at.get(o[1], 0), now))
         elif o[0] == "trans" and o[1] in delay_of:
             t = tmap[o[1]]
             # (the source may have been left and re-entered by this very transition: look at the activation before it)
@@ -128,9 +130,16 @@ def monitor(am, engine, cx, events, snaps):
             if t_enter is None:
                 out.append(("delayed transition %d fired although its state %d was never entered" % (t.tid, t.src), None))
             elif now - t_enter < delay_of[t.tid]:
+                # the recorded finding F8 is about an expiry that fell due WHILE an earlier activation was still active and
+                # was queued behind the leave / re-entry; a timer that falls due only after its activation was left has
+                # survived the exit - that is not F8
+                d = delay_of[t.tid]
+                queued_behind = any(e + d <= l and e + d <= now for e, l in spans.get(t.src, []))
                 out.append(("delayed transition %d (after %d ms) fired at t=%d but its state %d was most recently entered at t=%d: "
-                            "only %d ms of continuous activity" % (t.tid, delay_of[t.tid], now, t.src, t_enter, now - t_enter),
-                            dict(kind="stale-expiry", cause="after-event-matched-by-type-only")))
+                            "only %d ms of continuous activity%s" % (t.tid, d, now, t.src, t_enter, now - t_enter,
+                                                                     "" if queued_behind else " (no earlier activation lasted %d ms: the timer of an "
+                                                                     "activation that was left before its deadline was not cancelled)" % d),
+                            dict(kind="stale-expiry", cause="after-event-matched-by-type-only") if queued_behind else None))
             key = (t.tid, act_before.get(t.src, 0))
             count[key] = count.get(key, 0) + 1
             if count[key] > 1:
